@@ -35,6 +35,7 @@ var c05AnchorFiles = []string{
 
 type c05PEv struct {
 	kind      string // arm | clear | close | dclear | dclose
+	arg       string // the deadline expression of an arming call
 	recv      string
 	line      int
 	armFailed bool
@@ -51,18 +52,31 @@ func (p c05Path) with(e ...c05PEv) c05Path {
 	return n
 }
 
+// c05Forwarder describes a helper `func f(…, c, …, t, …)` (or method) whose body calls
+// c.SetReadDeadline(t) / c.SetDeadline(t) with its own parameters: a call f(…) arms at the call site.
+type c05Forwarder struct {
+	connParam int // index of the conn parameter, -1: the method receiver (or its field connField)
+	connField string
+	timeParam int
+}
+
 type c05Extractor struct {
-	params map[string]bool // parameters of the enclosing declaration: X.SetReadDeadline(param) is pure forwarding
-	fset  *token.FileSet
-	units []c05Unit // function literals found while walking, to analyse separately
-	limit int
+	forwarders map[string]c05Forwarder
+	zeroVars   map[string]bool // `var x time.Time` without initialiser: x is the zero time
+	params     map[string]bool // parameters of the enclosing declaration: X.SetReadDeadline(param) is pure forwarding
+	fset       *token.FileSet
+	units      []c05Unit // function literals found while walking, to analyse separately
+	limit      int
 }
 type c05Unit struct {
 	name string
 	body *ast.BlockStmt
 }
 
-func c05IsZeroTime(e ast.Expr) bool {
+func (x *c05Extractor) isZeroTime(e ast.Expr) bool {
+	if id, ok := e.(*ast.Ident); ok {
+		return x.zeroVars[id.Name]
+	}
 	cl, ok := e.(*ast.CompositeLit)
 	if !ok || len(cl.Elts) != 0 {
 		return false
@@ -71,39 +85,134 @@ func c05IsZeroTime(e ast.Expr) bool {
 	if !ok {
 		return false
 	}
-	x, ok := se.X.(*ast.Ident)
-	return ok && x.Name == "time" && se.Sel.Name == "Time"
+	id, ok := se.X.(*ast.Ident)
+	return ok && id.Name == "time" && se.Sel.Name == "Time"
 }
 
 // callEvent classifies one call expression.
 func (x *c05Extractor) callEvent(c *ast.CallExpr) (c05PEv, bool) {
+	line := x.fset.Position(c.Pos()).Line
+	// a helper forwarding a deadline parameter: the call site is the arming site
+	var fname string
+	var recvExpr ast.Expr
+	switch f := c.Fun.(type) {
+	case *ast.Ident:
+		fname = f.Name
+	case *ast.SelectorExpr:
+		fname = f.Sel.Name
+		recvExpr = f.X
+	}
+	if fw, ok := x.forwarders[fname]; ok && fname != "SetReadDeadline" && fname != "SetDeadline" && fw.timeParam < len(c.Args) {
+		recv := ""
+		switch {
+		case fw.connParam >= 0 && fw.connParam < len(c.Args):
+			recv = types.ExprString(c.Args[fw.connParam])
+		case fw.connParam < 0 && recvExpr != nil:
+			recv = types.ExprString(recvExpr)
+			if fw.connField != "" {
+				recv += "." + fw.connField
+			}
+		}
+		targ := c.Args[fw.timeParam]
+		if recv != "" {
+			if x.isZeroTime(targ) {
+				return c05PEv{kind: "clear", recv: recv, line: line}, true
+			}
+			if id, ok := targ.(*ast.Ident); !ok || !x.params[id.Name] {
+				return c05PEv{kind: "arm", recv: recv, line: line, arg: types.ExprString(targ)}, true
+			}
+		}
+	}
 	se, ok := c.Fun.(*ast.SelectorExpr)
 	if !ok {
 		return c05PEv{}, false
 	}
 	recv := types.ExprString(se.X)
-	line := x.fset.Position(c.Pos()).Line
 	switch se.Sel.Name {
 	case "SetReadDeadline", "SetDeadline":
 		if len(c.Args) != 1 {
 			return c05PEv{}, false
 		}
-		if c05IsZeroTime(c.Args[0]) {
+		if x.isZeroTime(c.Args[0]) {
 			return c05PEv{kind: "clear", recv: recv, line: line}, true
 		}
-		if se.Sel.Name == "SetDeadline" {
-			return c05PEv{}, false // only read deadlines are tabulated as arming sites
-		}
 		if id, ok := c.Args[0].(*ast.Ident); ok && x.params[id.Name] {
-			return c05PEv{}, false // a wrapper's own SetReadDeadline(t) forwarding its argument
+			return c05PEv{}, false // a wrapper/helper forwarding its own parameter: armed at ITS call sites
 		}
-		return c05PEv{kind: "arm", recv: recv, line: line}, true
+		return c05PEv{kind: "arm", recv: recv, line: line, arg: types.ExprString(c.Args[0])}, true
 	case "Close":
 		if len(c.Args) == 0 {
 			return c05PEv{kind: "close", recv: recv, line: line}, true
 		}
 	}
 	return c05PEv{}, false
+}
+
+// c05CollectFile finds the zero-time variables and the forwarding helpers of one file.
+func c05CollectFile(f *ast.File, zero map[string]bool, fw map[string]c05Forwarder) {
+	ast.Inspect(f, func(n ast.Node) bool {
+		vs, ok := n.(*ast.ValueSpec)
+		if !ok || len(vs.Values) != 0 || vs.Type == nil {
+			return true
+		}
+		if types.ExprString(vs.Type) == "time.Time" {
+			for _, nm := range vs.Names {
+				zero[nm.Name] = true
+			}
+		}
+		return true
+	})
+	for _, d := range f.Decls {
+		fd, ok := d.(*ast.FuncDecl)
+		if !ok || fd.Body == nil || fd.Type.Params == nil {
+			continue
+		}
+		var pnames []string
+		for _, fl := range fd.Type.Params.List {
+			for _, nm := range fl.Names {
+				pnames = append(pnames, nm.Name)
+			}
+		}
+		idx := func(name string) int {
+			for i, p := range pnames {
+				if p == name {
+					return i
+				}
+			}
+			return -1
+		}
+		recvName := ""
+		if fd.Recv != nil && len(fd.Recv.List) == 1 && len(fd.Recv.List[0].Names) == 1 {
+			recvName = fd.Recv.List[0].Names[0].Name
+		}
+		ast.Inspect(fd.Body, func(n ast.Node) bool {
+			c, ok := n.(*ast.CallExpr)
+			if !ok || len(c.Args) != 1 {
+				return true
+			}
+			se, ok := c.Fun.(*ast.SelectorExpr)
+			if !ok || (se.Sel.Name != "SetReadDeadline" && se.Sel.Name != "SetDeadline") {
+				return true
+			}
+			tid, ok := c.Args[0].(*ast.Ident)
+			if !ok || idx(tid.Name) < 0 {
+				return true
+			}
+			switch cx := se.X.(type) {
+			case *ast.Ident:
+				if i := idx(cx.Name); i >= 0 {
+					fw[fd.Name.Name] = c05Forwarder{connParam: i, timeParam: idx(tid.Name)}
+				} else if cx.Name == recvName {
+					fw[fd.Name.Name] = c05Forwarder{connParam: -1, timeParam: idx(tid.Name)}
+				}
+			case *ast.SelectorExpr:
+				if id, ok := cx.X.(*ast.Ident); ok && id.Name == recvName {
+					fw[fd.Name.Name] = c05Forwarder{connParam: -1, connField: cx.Sel.Name, timeParam: idx(tid.Name)}
+				}
+			}
+			return true
+		})
+	}
 }
 
 // exprEvents lists the events of the calls inside n in source order; function literals are queued
@@ -327,11 +436,11 @@ func (x *c05Extractor) clauses(unit string, body *ast.BlockStmt, pre []c05Path, 
 }
 
 type c05Row struct {
-	file, fn, recv string
-	line           int
-	cleared        bool
-	armFailed      bool
-	sig            string
+	file, fn, recv, arg string
+	line                int
+	cleared             bool
+	armFailed           bool
+	sig                 string
 }
 
 func c05FuncName(fd *ast.FuncDecl) string {
@@ -360,6 +469,15 @@ func c05ContainsArm(x *c05Extractor, n ast.Node) bool {
 
 func c05ExtractRows(repo string) ([]c05Row, error) {
 	var rows []c05Row
+	zero := map[string]bool{}
+	forwarders := map[string]c05Forwarder{}
+	for _, rel := range c05AnchorFiles {
+		f, err := parser.ParseFile(token.NewFileSet(), filepath.Join(repo, rel), nil, 0)
+		if err != nil {
+			return nil, err
+		}
+		c05CollectFile(f, zero, forwarders)
+	}
 	for _, rel := range c05AnchorFiles {
 		fset := token.NewFileSet()
 		f, err := parser.ParseFile(fset, filepath.Join(repo, rel), nil, 0)
@@ -371,7 +489,7 @@ func c05ExtractRows(repo string) ([]c05Row, error) {
 			if !ok || fd.Body == nil {
 				continue
 			}
-			x := &c05Extractor{fset: fset, limit: 4096, params: map[string]bool{}}
+			x := &c05Extractor{fset: fset, limit: 4096, params: map[string]bool{}, forwarders: forwarders, zeroVars: zero}
 			if fd.Type.Params != nil {
 				for _, fl := range fd.Type.Params.List {
 					for _, n := range fl.Names {
@@ -410,7 +528,7 @@ func c05ExtractRows(repo string) ([]c05Row, error) {
 						if p.done {
 							exit = "return"
 						}
-						r := c05Row{file: rel, fn: u.name, recv: a.recv, line: a.line, cleared: cleared, armFailed: a.armFailed,
+						r := c05Row{file: rel, fn: u.name, recv: a.recv, arg: a.arg, line: a.line, cleared: cleared, armFailed: a.armFailed,
 							sig: strings.Join(sig, ",") + ";" + exit}
 						key := fmt.Sprintf("%s|%s|%d|%s|%v|%s", r.file, r.fn, r.line, r.recv, r.armFailed, r.sig)
 						if !seen[key] {
@@ -454,7 +572,7 @@ func TestVerifC05Paths(t *testing.T) {
 	var sb strings.Builder
 	sb.WriteString("import DaeVerif.C05.Model\n")
 	sb.WriteString("/-! GENERATED by harness/overlay/control/c05_paths_test.go from the repository under check — do not edit.\n")
-	sb.WriteString("One row per (arming call, distinct continuation) : file, function, line of the arming call, receiver,\n")
+	sb.WriteString("One row per (arming call, distinct continuation) : file, function, line of the arming call, receiver, deadline expression,\n")
 	sb.WriteString("path number, cleared-or-closed on this path, arming call itself failed. -/\n")
 	sb.WriteString("namespace DaeVerif.C05.Gen\nopen DaeVerif.C05\n")
 	sb.WriteString("def deadlinePaths : List PathRow := [\n")
@@ -464,8 +582,8 @@ func TestVerifC05Paths(t *testing.T) {
 		if i == len(rows)-1 {
 			sep = ""
 		}
-		fmt.Fprintf(&sb, "  ⟨%q, %q, %d, %q, %d, %s, %s⟩%s\n", r.file, r.fn, r.line, r.recv, i, c05LeanBool(r.cleared), c05LeanBool(r.armFailed), sep)
-		fmt.Fprintf(&sum, "%s %s:%d recv=%s cleared=%v armFailed=%v path=[%s]\n", r.fn, r.file, r.line, r.recv, r.cleared, r.armFailed, r.sig)
+		fmt.Fprintf(&sb, "  ⟨%q, %q, %d, %q, %q, %d, %s, %s⟩%s\n", r.file, r.fn, r.line, r.recv, r.arg, i, c05LeanBool(r.cleared), c05LeanBool(r.armFailed), sep)
+		fmt.Fprintf(&sum, "%s %s:%d recv=%s arg=%s cleared=%v armFailed=%v path=[%s]\n", r.fn, r.file, r.line, r.recv, r.arg, r.cleared, r.armFailed, r.sig)
 	}
 	sb.WriteString("]\nend DaeVerif.C05.Gen\n")
 	if err := os.WriteFile(filepath.Join(VOutDir(), "c05_paths.lean"), []byte(sb.String()), 0o644); err != nil {
